@@ -164,7 +164,12 @@ pub fn head_item<const B: u8>() {
     if (major == 2 || major == 3) && (B & 0x1f) != 31 {
         if let HeadR::Ok(h) = read_head(&buf[..], 0) { kani::assume(h.arg <= 4); }
     }
-    // a tag or a one-element container is followed by one more item: keep that a one-byte scalar
+    // a tag is followed by the tagged item: keep that one a concrete one-byte scalar (a symbolic
+    // initial byte there makes skip()'s whole dispatch symbolic in the next loop iteration)
+    if major == 6 {
+        let w = match B & 0x1f { 0..=23 => 1, 24 => 2, 25 => 3, 26 => 5, _ => 9 };
+        buf[w] = 0x05;
+    }
     let want = wellformed::<4>(&buf[..], 0, 4);
     let mut d = Decoder::new(&buf[..]);
     let r = d.skip();
